@@ -118,6 +118,9 @@ where
                             }
                             Err((mut event, err)) => {
                                 event.ingest = ProcessorStatus::Failed(err);
+                                // An operation which failed validation (for example a forged
+                                // signature claiming another author) must never prune a log.
+                                event.ignore_log_prune();
                                 event
                             }
                         })
